@@ -24,12 +24,19 @@ type C09Case struct {
 	Tail  Toks      `json:"tail"`
 	Kind  string    `json:"kind"`
 	Kinds []string  `json:"kinds,omitempty"`
+	ROAt  int       `json:"ro_at,omitempty"` // number of leading tokens of pre that stand before the require-order level is entered
 }
 
 func genC09(t *rapid.T) C09Case {
 	cfg := DefaultCfg()
 	cfg.RequireOrder = 2
 	cfg.Help = 1
+	cmdOnly := rapid.IntRange(0, 3).Draw(t, "cmdonly") == 0
+	if cmdOnly {
+		// require-order set on one sub-command only (a wrapper command), not on the program
+		cfg.RequireOrder = 0
+		cfg.MinCmds = 1
+	}
 	spec := GenProg(t, cfg)
 	ac := safeArgvCfg()
 	ac.Positional = 0
@@ -37,11 +44,33 @@ func genC09(t *rapid.T) C09Case {
 	a := NewArgvGen(t, spec, ac)
 	// the built-in help command is created with fresh settings (no require-order): it is not a user level
 	a.AvoidLevel = func(l *Level) bool { return l.IsHelpCmd }
+	roAt := 0
+	if cmdOnly && len(spec.Root.Cmds) > 0 {
+		ci := rapid.IntRange(0, len(spec.Root.Cmds)-1).Draw(t, "rocmd")
+		spec.Root.Cmds[ci].RequireOrder = true
+		a = NewArgvGen(t, spec, ac)
+		a.AvoidLevel = func(l *Level) bool { return l.IsHelpCmd }
+		// before the command token anything goes: positionals, options
+		pre0 := ac
+		pre0.Positional, pre0.Commands = 3, 0
+		a.cfg = pre0
+		k := rapid.IntRange(0, 3).Draw(t, "nroot")
+		for i := 0; i < k; i++ {
+			a.Step()
+		}
+		name := spec.Root.Cmds[ci].Name
+		if ch, ok := a.cur.Children[name]; ok && a.cur.Parent == nil {
+			a.Push("command", name)
+			a.cur = ch
+			roAt = len(a.Argv)
+		}
+		a.cfg = ac
+	}
 	n := rapid.IntRange(0, 4).Draw(t, "npre")
 	for i := 0; i < n; i++ {
 		a.Step()
 	}
-	c := C09Case{Spec: spec, Pre: a.Argv, Kinds: a.Kinds}
+	c := C09Case{Spec: spec, Pre: a.Argv, Kinds: a.Kinds, ROAt: roAt}
 	lv := a.Cur()
 	c.Kind = rapid.SampledFrom([]string{"positional", "positional", "unknown", "dash"}).Draw(t, "stopkind")
 	switch c.Kind {
@@ -70,14 +99,21 @@ func genC09(t *rapid.T) C09Case {
 	return c
 }
 
-func withoutRO(p *ProgSpec) *ProgSpec {
+// withoutRO returns the same definition without require-order. With passMode the unknown mode is Pass
+// everywhere (so that an unknown option can be recognised as a stop candidate); without it the modes are kept
+// (needed when part of the command line stands at levels where require-order is not in force anyway).
+func withoutRO(p *ProgSpec, passMode bool) *ProgSpec {
 	cp := *p
 	cp.RequireOrder = false
-	cp.UnknownMode = UnkPass
+	if passMode {
+		cp.UnknownMode = UnkPass
+	}
 	var strip func(c CmdSpec) CmdSpec
 	strip = func(c CmdSpec) CmdSpec {
 		c.RequireOrder = false
-		c.UnknownMode = 0
+		if passMode {
+			c.UnknownMode = 0
+		}
 		cmds := make([]CmdSpec, len(c.Cmds))
 		for i := range c.Cmds {
 			cmds[i] = strip(c.Cmds[i])
@@ -100,7 +136,7 @@ func checkC09(c C09Case, st *evid.Stats) error {
 		st.Exclude("stop token is an odd dash token")
 		return nil
 	}
-	nro := withoutRO(c.Spec)
+	nro := withoutRO(c.Spec, c.ROAt == 0)
 	A := Run(nro, c.Pre, RunOpts{})
 	if A.Panic != "" {
 		return failf("panic: %s", A.Panic)
@@ -109,9 +145,19 @@ func checkC09(c C09Case, st *evid.Stats) error {
 		st.Exclude("pre does not parse")
 		return nil
 	}
-	if len(A.Remaining) > 0 {
+	// no non-option token may stand inside the require-order level before the stop candidate (it would be the
+	// stop point itself); text before the require-order command was entered is fine and must be conserved
+	roAt := c.ROAt
+	if roAt > len(c.Pre) {
+		roAt = len(c.Pre)
+	}
+	A0 := Run(nro, c.Pre[:roAt], RunOpts{})
+	if A0.ParseFailed || !eqStrs(A.Remaining, A0.Remaining) {
 		st.Exclude("pre already contains a non-option token (earlier stop point)")
 		return nil
+	}
+	if roAt > 0 {
+		st.Class("require-order-on-a-subcommand-only")
 	}
 	// A bundle whose leading letters are known options is partly interpreted before the stop hits at its
 	// first unknown letter. Whether those letters take effect is not fixed by the statement, so the state of
@@ -119,6 +165,12 @@ func checkC09(c C09Case, st *evid.Stats) error {
 	m1, m2 := Model(nro, c.Pre), Model(nro, append(append([]string{}, c.Pre...), stop))
 	if m1.Unspecified != "" || m2.Unspecified != "" {
 		st.Exclude("unspecified: " + m1.Unspecified + m2.Unspecified)
+		return nil
+	}
+	// the stop candidate must stand at a level where require-order is in force (a command token of pre may have
+	// been swallowed as an option value, so that the require-order command was never entered)
+	if lvl := m2.LevelAt[len(c.Pre)]; lvl == "" || c.Spec.Levels().Find(lvl) == nil || !c.Spec.Levels().Find(lvl).RequireOrder {
+		st.Exclude("stop candidate does not stand at a require-order level")
 		return nil
 	}
 	touched := map[string]bool{} // option identities addressed by the stop token
@@ -203,8 +255,8 @@ func checkC09(c C09Case, st *evid.Stats) error {
 	if d := optsDiff(strip(A.Opts), strip(R.Opts)); d != "" {
 		return failf("require-order: option state differs from parsing the part before the stop token without require-order: %s; pre=%s stop=%q tail=%s %s", d, q(c.Pre), stop, q(c.Tail), describeCase(c.Spec, full))
 	}
-	if R.Writer != "" {
-		return failf("require-order: unexpected warning output %q", R.Writer)
+	if R.Writer != A.Writer {
+		return failf("require-order: warning output %q, want %q (that of the part before the stop token)", R.Writer, A.Writer)
 	}
 	// same command selected as by pre alone (not comparable when the stop token itself addressed options,
 	// e.g. the help option as a bundled letter)
